@@ -280,9 +280,13 @@ class DateTimeParser:
 
         if ctrl in ("-", "+"):
             self.vidx += 1
-            offset = self.parse_digits(2) * 60
+            hours = self.parse_digits(2)
             self.skip(":")
-            offset += self.parse_digits(2)
+            minutes = self.parse_digits(2)
+            offset = hours * 60 + minutes
+            if minutes > 59 or offset > 840:
+                raise ValueError("Offset must be in -14:00..+14:00")
+
             offset *= -1 if ctrl == "-" else 1
             return offset
 
